@@ -74,6 +74,24 @@ type l2Case struct {
 	Clean []any
 }
 
+// l2Directed: bulk sources of different lengths where the odd one contributes no column at
+// all (every member omitempty and zero), in both source orders and in the explicit form;
+// the same with equal lengths (accepted); a zero single value next to a bulk source.
+var l2Directed = []l2Case{
+	{Q: "INSERT INTO t (*) VALUES ($Person.*, $OmitAll.*)", Samples: []any{zoo.Person{}, zoo.OmitAll{}},
+		Args: []any{[]zoo.Person{{ID: 1, Name: "a"}, {ID: 2, Name: "b"}, {ID: 3, Name: "c"}}, []zoo.OmitAll{{}, {}}}},
+	{Q: "INSERT INTO t (*) VALUES ($OmitAll.*, $Person.*)", Samples: []any{zoo.Person{}, zoo.OmitAll{}},
+		Args: []any{[]zoo.Person{{ID: 1, Name: "a"}, {ID: 2, Name: "b"}, {ID: 3, Name: "c"}}, []zoo.OmitAll{{}, {}}}},
+	{Q: "INSERT INTO t (*) VALUES ($Person.*, $OmitAll.*)", Samples: []any{zoo.Person{}, zoo.OmitAll{}},
+		Args: []any{[]zoo.Person{{ID: 1, Name: "a"}, {ID: 2, Name: "b"}}, []*zoo.OmitAll{{}, {}, {}, {}}}},
+	{Q: "INSERT INTO t (*) VALUES ($Person.*, $OmitAll.*)", Samples: []any{zoo.Person{}, zoo.OmitAll{}},
+		Args: []any{[]zoo.Person{{ID: 1, Name: "a"}, {ID: 2, Name: "b"}}, []zoo.OmitAll{{}, {}}}},
+	{Q: "INSERT INTO t (*) VALUES ($Person.*, $OmitAll.*)", Samples: []any{zoo.Person{}, zoo.OmitAll{}},
+		Args: []any{[]zoo.Person{{ID: 1, Name: "a"}, {ID: 2, Name: "b"}}, zoo.OmitAll{}}},
+	{Q: "INSERT INTO t (*) VALUES ($Person.*, $OmitAll.*)", Samples: []any{zoo.Person{}, zoo.OmitAll{}},
+		Args: []any{[]zoo.Person{{ID: 1, Name: "a"}, {ID: 2, Name: "b"}, {ID: 3, Name: "c"}}, []zoo.OmitAll{{Auto: 1}, {Auto: 2}}}},
+}
+
 // typeUse collects how the query uses each type name.
 type typeUse struct {
 	standalone bool // used in a member/slice input outside an insert
@@ -347,6 +365,19 @@ func genL2(r *rng.R, g *qgen.G, seeds []string) (*l2Case, bool) {
 			}
 			c.Args[pick] = reflect.ValueOf(c.Args[pick]).Slice(0, 1).Interface()
 			c.Note = append(c.Note, "bulk-cut-to-one")
+		}
+		// ... or an argument all of whose elements are zero (every omitempty member omitted),
+		// one element shorter than the others: still a slice of another length
+		if len(bulk) >= 2 && r.Chance(1, 2) {
+			for _, i := range bulk {
+				v := reflect.ValueOf(c.Args[i])
+				if et := v.Type().Elem(); et.Kind() == reflect.Struct && strings.Contains(et.Name(), "Omit") && v.Len() >= 2 {
+					z := reflect.MakeSlice(v.Type(), v.Len()-1, v.Len()-1)
+					c.Args[i] = z.Interface()
+					c.Note = append(c.Note, "bulk-zero-and-shorter")
+					break
+				}
+			}
 		}
 	}
 	if r.Chance(1, 12) || (focusBulk && r.Chance(1, 4)) {
@@ -1280,6 +1311,11 @@ func runL2(args []string) {
 		}
 		cr := r.Fork()
 		c, ok := genL2(cr, g, seeds)
+		if i < len(l2Directed) {
+			// a few directed cases first: shapes the generator reaches too rarely
+			d := l2Directed[i]
+			c, ok = &l2Case{Q: d.Q, Samples: d.Samples, Args: d.Args, Clean: d.Args, Note: []string{"directed"}}, true
+		}
 		if !ok {
 			parseRejected++
 			continue
